@@ -132,6 +132,73 @@ def check_type(S, F, T, spec):
                 break
         r["problems"] = list(dict.fromkeys(r["problems"]))[:5]
         recs.append(r)
+    # --- rule writers: write(self, w) hands exactly to_bytes(self) to the writer
+    wr = F.bodies.get(T + "::write")
+    if wr is not None and wr["arg_count"] == 2:
+        r = {"rule": "writers", "type": T, "what": "write", "sp": wr["span"], "problems": [], "paths": 0}
+        for (s1, rv, orig, desc) in enc_finals:
+            s2 = s1.fork()
+            Iw = S.interp()
+            Iw.opts["io_sim"] = True
+            try:
+                warg = Iw.materialize(s2, wr["locals"][2][0], ("rt", "w"))
+            except Infeasible:
+                continue
+            s2.notes["wlog"] = ()
+            fin, probs, Iw = S.run(wr, s2, [a0, warg], Iw)
+            for (s3, wv) in fin:
+                if not s3.feasible() or S.result_variant(Iw, s3, wv) != "Ok":
+                    continue
+                r["paths"] += 1
+                log = s3.notes.get("wlog", ())
+                n = out_len(rv)
+                data = rv.elems if isinstance(rv, VArray) else (rv.data if isinstance(rv, VVec) else None)
+                pre = (desc + ": ") if desc else ""
+                skip = set(spec.get("writers_skip", {}).get(name, {}).get("bytes", []))
+                # flatten: constant-length writes, optionally one symbolic-length write at the end
+                dyn = [x for x in log if isinstance(x, tuple) and x and x[0] == "dyn"]
+                fixed = [x for x in log if not (isinstance(x, tuple) and x and x[0] == "dyn")]
+                if len(dyn) > 1 or (dyn and log[-1] is not dyn[0]):
+                    r["problems"].append("%swrite() emits several slices of symbolic length" % pre)
+                    continue
+                total_w = Lin.const(len(fixed)) + (dyn[0][1].len if dyn and dyn[0][1] is not None else Lin.const(0))
+                if n is None or (dyn and dyn[0][1] is None) or not S.int_eq(s3, total_w, n):
+                    r["problems"].append("%swrite() emits %s bytes, to_bytes() %s" % (pre, show_lin(total_w), show_lin(n) if n is not None else "?"))
+                    continue
+                if data is None:
+                    r["problems"].append("%scontents of to_bytes() are not tracked" % pre)
+                    continue
+                seq = [(i, x, None) for i, x in enumerate(fixed)]
+                if dyn:
+                    bs = dyn[0][2]
+                    if bs is None:
+                        r["problems"].append("%scontents of the symbolic-length write are not tracked" % pre)
+                        continue
+                    seq += [(len(fixed) + j, x, j) for j, x in enumerate(bs)]
+                for (i, x, j) in seq:
+                    if i >= len(data) or s3.entails(Lin.const(i) - n):
+                        break
+                    if i in skip:
+                        continue
+                    s4 = s3
+                    if not s3.entails(n - i - 1):
+                        s4 = s3.fork_facts()
+                        try:
+                            s4.add_ge0(n - i - 1)
+                            if not s4.feasible():
+                                continue
+                        except Infeasible:
+                            continue
+                    y = data[i]
+                    if y is None or not (isinstance(x, VInt) and isinstance(y, VInt) and S.int_eq(s4, x.lin, y.lin)):
+                        r["problems"].append("%sbyte %d written by write() differs from to_bytes(): %s vs %s" % (
+                            pre, i, show_lin(x.lin)[:80] if isinstance(x, VInt) else "?",
+                            show_lin(y.lin)[:80] if isinstance(y, VInt) else "?"))
+                        break
+            if len(r["problems"]) > 3:
+                break
+        r["problems"] = list(dict.fromkeys(r["problems"]))[:4]
+        recs.append(r)
     # --- rule rt2: for every accepted byte string S:  to_bytes(decode(S)) == S[..n] (modulo reserved bits),
     #     n bytes consumed, and decoding the re-encoded bytes gives the same value again
     for dn in DECODERS:
@@ -327,5 +394,151 @@ def run(F, inv, summaries, jobs=None, only=None):
     ctx = mp.get_context("fork")
     with ctx.Pool(jobs) as pool:
         res = pool.map(_work, types, chunksize=1)
+    res.sort(key=lambda r: r["type"])
+    return res
+
+
+# ------------------------------------------------------------------------------------------------------------------
+# reader vs slice (C06): `T::read(reader)` and `T::from_slice(slice)` on the same symbolic bytes
+
+def err_class(F, I, st, dv):
+    """('short', None) for not-enough-data errors (slice: Len, reader: Io), ('content', innermost error value)"""
+    e = dv.fields[0] if isinstance(dv, VAdt) and dv.fields else dv
+    for _ in range(5):
+        if isinstance(e, VOpaque):
+            return ("short", None) if e.key == ("ioerr", "eof") else ("other", None)
+        if not isinstance(e, VAdt):
+            return ("other", None)
+        nm = e.path.rsplit("::", 1)[1]
+        if nm == "LenError":
+            return ("short", None)
+        adt = F.adts.get(e.path)
+        if adt and adt["kind"] == "enum" and e.variant is not None:
+            vn = adt["variants"][e.variant]["name"]
+            if vn == "Io":
+                return ("short", None)
+            # wrappers (Content(..), Len(..), ReadError::LinuxSll(..) ...): descend to the innermost error value
+            if e.fields and len(e.fields) == 1 and isinstance(e.fields[0], VAdt) and e.fields[0].path.startswith("err::"):
+                e = e.fields[0]
+                continue
+        return ("content", e)
+    return ("other", None)
+
+
+def merge_states(a, b):
+    s = a.fork_facts()
+    try:
+        for f in b.facts:
+            s.add_ge0(f)
+        for n in b.neqs:
+            s.add_ne0(n)
+        s.disj = list(s.disj) + [d for d in b.disj if d not in s.disj]
+        if not s.feasible():
+            return None
+    except Infeasible:
+        return None
+    return s
+
+
+def check_read(S, F, T):
+    name = T.rsplit("::", 1)[1]
+    rd, fs = F.bodies.get(T + "::read"), F.bodies.get(T + "::from_slice")
+    if rd is None or fs is None or rd["arg_count"] != 1 or fs["arg_count"] != 1:
+        return None
+    r = {"rule": "read", "type": T, "what": "read~from_slice", "sp": rd["span"], "problems": [], "paths": 0}
+    I = S.interp()
+    st0 = State()
+    arg, origin, total = symbolic_input(I, st0, fs["locals"][1][0], "in")
+    if arg is None:
+        r["problems"].append("from_slice argument type not supported")
+        return r
+    sa = st0.fork()
+    finA, probs, IA = S.run(fs, sa, [arg])
+    sb = st0.fork()
+    IB = S.interp()
+    IB.opts["io_sim"] = True
+    try:
+        rarg = IB.materialize(sb, rd["locals"][1][0], ("rt", "reader"))
+    except Infeasible:
+        r["problems"].append("reader argument cannot be materialised")
+        return r
+    sb.notes["rd"] = (origin, Lin.const(0), total)
+    finB, probs2, IB = S.run(rd, sb, [rarg], IB)
+    r["problems"] += (probs + probs2)[:2]
+    for (s1, av) in finA:
+        for (s2, bv) in finB:
+            s = merge_states(s1, s2)
+            if s is None:
+                continue
+            r["paths"] += 1
+            ca, cb = S.result_variant(IA, s, av), S.result_variant(IB, s, bv)
+            if ca is None or cb is None:
+                r["problems"].append("result class not decided on a joint path")
+                continue
+            if ca == "Ok" and cb == "Ok":
+                ha = av.fields[0] if isinstance(av, VAdt) and av.path == RESULT else av
+                rest = None
+                if isinstance(ha, VTuple) and len(ha.fields) == 2:
+                    rest, ha = ha.fields[1], ha.fields[0]
+                hb = bv.fields[0] if isinstance(bv, VAdt) and bv.path == RESULT else bv
+                for d in S.eq(IB, s, ha, hb, name):
+                    r["problems"].append("read() and from_slice() decode different values: " + d)
+                pos = s2.notes.get("rd", (None, None, None))[1]
+                if rest is not None and isinstance(rest, VRegion) and pos is not None:
+                    if not S.int_eq(s, pos, total - rest.len):
+                        r["problems"].append("read() consumed %s bytes, from_slice() %s" % (show_lin(pos), show_lin(total - rest.len)))
+            elif ca == "Err" and cb == "Err":
+                ka, kb = err_class(F, IA, s, av), err_class(F, IB, s, bv)
+                if ka[0] == "short" and kb[0] == "content":
+                    # a truncated slice is rejected for its length before the content is looked at; the reader finds
+                    # the content fault in the bytes it could still pull: the property compares slices that hold the
+                    # whole announced packet, the order of these two checks on truncated data is not fixed by it
+                    r["order_only"] = r.get("order_only", 0) + 1
+                elif ka[0] != kb[0]:
+                    r["problems"].append("different rejection reasons: from_slice %s (%s), read %s (%s)" % (
+                        ka[0], describe_err(F, av), kb[0], describe_err(F, bv)))
+                elif ka[0] == "content" and ka[1] is not None and kb[1] is not None:
+                    for d in S.eq(IB, s, ka[1], kb[1], "error"):
+                        r["problems"].append("different content errors: " + d)
+            elif ca == "Err" and cb == "Ok" and err_class(F, IA, s, av)[0] == "short" and \
+                    s2.notes.get("rd") is not None and s.entails(total - s2.notes["rd"][1] - 1):
+                # the slice decoder rejects a slice that is *longer* than the message it announces (exact-length
+                # formats such as the ICMP timestamp message); the property compares slices holding the packet
+                r["longer_slice_only"] = r.get("longer_slice_only", 0) + 1
+            else:
+                r["problems"].append("from_slice returns %s (%s) where read returns %s (%s) for the same bytes" % (
+                    ca, describe_err(F, av) if ca == "Err" else "value", cb, describe_err(F, bv) if cb == "Err" else "value"))
+            if len(r["problems"]) > 5:
+                break
+        if len(r["problems"]) > 5:
+            break
+    r["problems"] = list(dict.fromkeys(r["problems"]))[:5]
+    return r
+
+
+def _work_read(T):
+    S = Sib(_F, _INV, _SUMM)
+    t0 = time.time()
+    try:
+        rec = check_read(S, _F, T)
+        err = None
+    except Exception:
+        import traceback
+        rec, err = None, traceback.format_exc()
+    return {"type": T, "records": [rec] if rec else [], "err": err, "time": time.time() - t0, "notes": sorted(set(S.notes))[:10]}
+
+
+def run_read(F, inv, summaries, jobs=None, only=None):
+    global _F, _INV, _SUMM, _SPEC
+    _F, _INV, _SUMM, _SPEC = F, inv, summaries, load_spec()
+    hts = set(header_types(F))
+    types = sorted({b["path"].rsplit("::", 1)[0] for b in F.body_list
+                    if b["path"].endswith("::read") and b["kind"] != "Closure" and not b.get("derived")} & hts)
+    if only:
+        types = [t for t in types if only in t]
+    jobs = jobs or min(16, os.cpu_count() or 4)
+    ctx = mp.get_context("fork")
+    with ctx.Pool(jobs) as pool:
+        res = pool.map(_work_read, types, chunksize=1)
     res.sort(key=lambda r: r["type"])
     return res
